@@ -1003,6 +1003,7 @@ impl Exec {
         let nout = d["nout"].as_u64().unwrap_or(1) as usize;
         let w = d["w"].as_bool().unwrap_or(false);
         let salt = d["salt"].as_u64().unwrap_or(0);
+        let shape = d["shape"].as_str().unwrap_or("plain");
         let h = |tag: &str, i: usize| -> [u8; 32] {
             use bitcoin::hashes::{sha256, Hash};
             let mut data = tag.as_bytes().to_vec();
@@ -1016,8 +1017,17 @@ impl Exec {
                 if w && (i % 2 == 0) {
                     witness.push(h("w", i)[..(i % 30) + 1].to_vec());
                 }
+                // shapes of well-formed transactions that a "sanity check" might single out
+                let previous_output = match shape {
+                    "null_prev" if i == 0 => bitcoin::OutPoint::null(),
+                    "null_prev_all" => bitcoin::OutPoint::null(),
+                    "zero_txid" => bitcoin::OutPoint { txid: bitcoin::Txid::from_byte_array([0u8; 32]), vout: i as u32 },
+                    "max_vout" => bitcoin::OutPoint { txid: bitcoin::Txid::from_byte_array(h("prev", i)), vout: u32::MAX },
+                    "dup_inputs" => bitcoin::OutPoint { txid: bitcoin::Txid::from_byte_array(h("prev", 0)), vout: 0 },
+                    _ => bitcoin::OutPoint { txid: bitcoin::Txid::from_byte_array(h("prev", i)), vout: i as u32 },
+                };
                 bitcoin::TxIn {
-                    previous_output: bitcoin::OutPoint { txid: bitcoin::Txid::from_byte_array(h("prev", i)), vout: i as u32 },
+                    previous_output,
                     script_sig: bitcoin::ScriptBuf::from_bytes(h("sig", i)[..(salt as usize + i) % 32].to_vec()),
                     sequence: bitcoin::Sequence((salt as u32).wrapping_mul(31).wrapping_add(i as u32)),
                     witness,
@@ -1026,13 +1036,26 @@ impl Exec {
             .collect();
         let output: Vec<bitcoin::TxOut> = (0..nout)
             .map(|i| bitcoin::TxOut {
-                value: bitcoin::Amount::from_sat(salt * 1000 + i as u64),
-                script_pubkey: bitcoin::ScriptBuf::from_bytes(h("spk", i)[..(salt as usize * 7 + i) % 33].to_vec()),
+                value: bitcoin::Amount::from_sat(match shape {
+                    "huge_value" => u64::MAX - i as u64,
+                    "zero_value" => 0,
+                    _ => salt * 1000 + i as u64,
+                }),
+                script_pubkey: match shape {
+                    "op_return" => bitcoin::ScriptBuf::from_bytes([vec![0x6a, 0x20], h("spk", i).to_vec()].concat()),
+                    "empty_script" => bitcoin::ScriptBuf::new(),
+                    "big_script" => bitcoin::ScriptBuf::from_bytes((0..11000).map(|k| h("spk", k / 32)[k % 32]).collect()),
+                    _ => bitcoin::ScriptBuf::from_bytes(h("spk", i)[..(salt as usize * 7 + i) % 33].to_vec()),
+                },
             })
             .collect();
         let tx = bitcoin::Transaction {
-            version: bitcoin::transaction::Version((salt % 3) as i32),
-            lock_time: bitcoin::absolute::LockTime::from_consensus((salt as u32) * 17),
+            version: bitcoin::transaction::Version(match shape {
+                "neg_version" => -1,
+                "max_version" => i32::MAX,
+                _ => (salt % 3) as i32,
+            }),
+            lock_time: bitcoin::absolute::LockTime::from_consensus(if shape == "max_locktime" { u32::MAX } else { (salt as u32) * 17 }),
             input,
             output,
         };
